@@ -14,6 +14,7 @@ mod refmls;
 mod treeor;
 mod runner;
 mod scenarios;
+mod selfcheck;
 mod seams;
 mod types;
 mod world;
@@ -62,6 +63,16 @@ fn main() {
         "replay" => cmd_replay(&args[2..]),
         "determinism" => cmd_determinism(&args[2..]),
         "one" => cmd_one(&args[2..]),
+        "selfcheck" => {
+            let sc = selfcheck::run();
+            for (f, n) in &sc.files {
+                println!("{f}: {n} values");
+            }
+            for e in &sc.errors {
+                println!("DISAGREES {e}");
+            }
+            if sc.errors.is_empty() { 0 } else { 2 }
+        }
         _ => 2,
     };
     std::process::exit(code);
@@ -85,6 +96,15 @@ fn cmd_check(args: &[String]) -> i32 {
     let budget_s = env_u64("VERIF_BUDGET_S", if thorough { 600 } else { 100_000 }) as f64;
     let verif_dir = std::env::var("VERIF_DIR").unwrap_or_else(|_| "/verif".into());
     println!("mlsim check {property} tier={tier} VERIF_SEED={seed} runs<={max_runs} budget={budget_s}s jobs={jobs}");
+    // the reference model must agree with the vectors shipped in the repository before it judges the library
+    let sc = selfcheck::run();
+    if !sc.errors.is_empty() {
+        for e in sc.errors.iter().take(10) {
+            eprintln!("HARNESS-ERROR: reference model disagrees with test vector {e}");
+        }
+        return 2;
+    }
+    println!("reference model self-check: {} values of {} vector files agree", sc.compared, sc.files.iter().filter(|f| f.1 > 0).count());
     let bp = BatchParams {
         property: property.clone(),
         tier: tier.clone(),
@@ -181,6 +201,7 @@ fn cmd_check(args: &[String]) -> i32 {
             "scenarios": agg.scenarios,
             "known_finding_hits": agg.known,
             "exhaustive": false,
+            "reference_model_self_check": {"values_compared": sc.compared, "vector_files": sc.files.iter().map(|(f, n)| format!("{f}: {n}")).collect::<Vec<_>>()},
             "components": {
                 "real": ["mls-rs", "mls-rs-core", "mls-rs-codec", "mls-rs-crypto-rustcrypto", "mls-rs-crypto-openssl", "mls-rs-crypto-awslc", "mls-rs-crypto-hpke", "mls-rs-provider-sqlite", "in-memory storage providers", "BasicIdentityProvider"],
                 "simulated": ["delivery service", "clock", "randomness (deterministic mode)", "fault-injecting wrappers round storage / identity / rules traits", "crash and restart"],
